@@ -65,7 +65,9 @@ int main(int argc, char** argv)
         if (line.empty()) { fputs("\n", out); continue; }
         std::string ans;
         if (!useFork) {
+            alarm(limit);          // a hang kills the batch; the driver re-runs the rest request by request in fork mode
             ans = handle(line);
+            alarm(0);
         } else {
             int fd[2];
             if (pipe(fd)) { perror("pipe"); return 2; }
